@@ -1,5 +1,5 @@
 (* C14 - option lookup resolves a key to the unique matching option or fails correctly.
-   Model: V.C14.Model (mirrors src/program_options.cpp after the repairs 7f13f8a and 7f60224); spec: V.C14.Spec.
+   Model: V.C14.Model (mirrors src/program_options.cpp after the repairs 42ca538 and d7a58a6); spec: V.C14.Spec.
    `built c al`   : c is reachable from the empty context through add(group) / addAlias / add(context), refused calls
                     included; al = alias names accepted so far.
    `domain c al`  : names and alias names non-empty, bytes 1..126, not starting with '-'; alias characters 1..126, not '-'.
